@@ -71,6 +71,7 @@ type vCase06 struct {
 	Lab  string `json:"lab"` // the encoded algorithm label (via = "parsed")
 	Sch  string `json:"sch"` // the scheme the signature value was made under
 	Now  int    `json:"now"` // epoch of the call: 0 = the epoch in which the long-lived Attestor was constructed, 1 = after the lapse second
+	Kc   string `json:"kc"`  // key-size class of the device key: "mult8" or "odd" (modulus size no multiple of 8)
 }
 
 type vRes06 struct {
@@ -98,11 +99,12 @@ type vPlan06 struct {
 	Cases []struct {
 		C vCase06 `json:"c"`
 	} `json:"cases"`
-	Bits   []int    `json:"bits"`
-	NFlip  int      `json:"nflip"`
-	Only   []string `json:"only"` // replay: restrict direction B to these tids
-	NoB    bool     `json:"nob"`
-	Worker int      `json:"workers"`
+	Bits    []int    `json:"bits"`
+	OddBits []int    `json:"oddbits"` // device key sizes that are no multiple of 8 (cases of class "odd")
+	NFlip   int      `json:"nflip"`
+	Only    []string `json:"only"` // replay: restrict direction B to these tids
+	NoB     bool     `json:"nob"`
+	Worker  int      `json:"workers"`
 }
 
 type vPlan struct {
@@ -408,6 +410,9 @@ func (w *vWorld) attestOn(a *yubiattest.Attestor, dev, slot *x509.Certificate) (
 // from a successful verification is still there when the second call runs.
 func (w *vWorld) afterAccept(d *vDev, dc, slot *x509.Certificate, tid string, tr *verifh.Trace, st *vStats06) vRes06 {
 	pc := vCase06{P: "C06", Kt: "rsa", Alg: 4, Rel: "root", Time: "valid", Sf: "canon", H0: "sha256", N0: true, Mut: "pred", Em: d.honEM}
+	if d.rsa.N.BitLen()%8 != 0 {
+		pc.Kc = "odd"
+	}
 	pe := &vE06{vCase06: pc, K: (d.rsa.N.BitLen() + 7) / 8, Hist: "used", Src: "B-pred"}
 	good := d.certs["root/valid"]
 	pe.Res = w.attest(good, d.honest)
@@ -498,6 +503,11 @@ func classByte(c string, orig int, r *mrand.Rand, max int) byte {
 // buildEM lays the abstract message over k octets; tbs must be chosen so that the digest octet to be replaced
 // is itself none of 00/01/FF (pickTBS).
 func buildEM(em vEM, k int, tbs []byte, r *mrand.Rand) []byte {
+	return buildEMLead(em, k, tbs, r, 0x80)
+}
+
+// buildEMLead: leadMax bounds an "other" lead octet (it must stay below the top octet of the modulus)
+func buildEMLead(em vEM, k int, tbs []byte, r *mrand.Rand, leadMax int) []byte {
 	dg := digestOf(em.Dgh, tbs)
 	if em.Dgj > 0 {
 		dg[em.Dgj-1] = classByte(em.Dgv, int(dg[em.Dgj-1]), r, 255)
@@ -515,7 +525,7 @@ func buildEM(em vEM, k int, tbs []byte, r *mrand.Rand) []byte {
 		}
 	}
 	T = append(T, dg...)
-	lead := classByte(em.Lead, 0, r, 0x80) // an "other" lead octet below 0x80 keeps the message below the modulus
+	lead := classByte(em.Lead, 0, r, leadMax) // an "other" lead octet below 0x80 keeps the message below the modulus
 	bt := classByte(em.Bt, 1, r, 255)
 	sep := classByte(em.Sep, 0, r, 255)
 	ps := func(n int) []byte {
@@ -703,6 +713,8 @@ type vStats06 struct {
 	CrossAcc       int            `json:"cross_accepted"`
 	TwinCalls      int            `json:"twin_calls_on_used"`
 	Unreal         int            `json:"unrealisable"`
+	UnrealOdd      int            `json:"unrealisable_odd"`
+	OddAcc         int            `json:"odd_accepted"`
 	Accepted       int            `json:"accepted"`
 	Panics         int            `json:"panics"`
 	Distinct       map[string]int `json:"-"`
@@ -731,7 +743,7 @@ func (s *vStats06) note(e *vE06) {
 	if e.Res.Pan {
 		s.Panics++
 	}
-	key := fmt.Sprintf("%d|%s|%s|%s|%s|%s|%d|%s|%s|%s|%s|%s|%v|%s|%d|%s|%v|%d", e.Now, e.Via, e.Lab, e.Sch, e.Hist, e.Kt, e.Alg, e.Rel, e.Time, e.Sf, e.Mut, e.Em.Shape, e.Em.Pfx, e.Em.Dgh, e.Em.Dgj, e.Em.Lead+e.Em.Bt+e.Em.Psf+e.Em.Psm+e.Em.Psl+e.Em.Sep+e.Em.Dgv, e.Res, e.K)
+	key := fmt.Sprintf("%s|%d|%s|%s|%s|%s|%s|%d|%s|%s|%s|%s|%s|%v|%s|%d|%s|%v|%d", e.Kc, e.Now, e.Via, e.Lab, e.Sch, e.Hist, e.Kt, e.Alg, e.Rel, e.Time, e.Sf, e.Mut, e.Em.Shape, e.Em.Pfx, e.Em.Dgh, e.Em.Dgj, e.Em.Lead+e.Em.Bt+e.Em.Psf+e.Em.Psm+e.Em.Psl+e.Em.Sep+e.Em.Dgv, e.Res, e.K)
 	s.Distinct[key]++
 }
 
@@ -746,7 +758,7 @@ func TestVerifAttest06(t *testing.T) {
 	}
 	st := &vStats06{Distinct: map[string]int{}, Bits: plan.Bits}
 	t0 := time.Now()
-	pregen(plan.Bits)
+	pregen(append(append([]int{}, plan.Bits...), plan.OddBits...))
 	st.KeyGenS = time.Since(t0).Seconds()
 	w := newWorld(verifh.NewRand("attest06-world", 0))
 	tr.Emit(vEvent{Ev: "reset", P: "C06", Tid: "reset"})
@@ -754,6 +766,12 @@ func TestVerifAttest06(t *testing.T) {
 	devs := map[string]*vDev{}
 	for i, b := range plan.Bits {
 		devs[fmt.Sprintf("rsa/%d", b)] = w.device("rsa", b, int64(1000*(i+1)))
+	}
+	for i, b := range plan.OddBits {
+		devs[fmt.Sprintf("rsa/%d", b)] = w.device("rsa", b, int64(300000+1000*i))
+		if got := devs[fmt.Sprintf("rsa/%d", b)].rsa.N.BitLen(); got != b {
+			panic(fmt.Sprintf("harness: asked for a %d-bit modulus, got %d", b, got))
+		}
 	}
 	devs["rsa/ff"] = w.device("rsa", -plan.Bits[0], 50000)
 	for i, kt := range []string{"p256", "p384", "ed25519"} {
@@ -826,6 +844,13 @@ func TestVerifAttest06(t *testing.T) {
 			}
 		} else if plan.Cases[ci].C.Kt == "rsa" && plan.Cases[ci].C.Em.Lead == "FF" {
 			all = append(all, job{ci, -1}) // needs the modulus that begins with FF
+		} else if plan.Cases[ci].C.Kt == "rsa" && plan.Cases[ci].C.Kc == "odd" {
+			for i, b := range plan.OddBits {
+				if m := plan.Cases[ci].C.Mut; i > 0 && (m == "dg" || m == "pfx") && verifh.Tier() != "thorough" {
+					continue // quick tier: the per-octet mutations of digest info and digest on the first odd size only
+				}
+				all = append(all, job{ci, b})
+			}
 		} else if plan.Cases[ci].C.Kt == "rsa" {
 			for _, b := range plan.Bits {
 				all = append(all, job{ci, b})
@@ -875,11 +900,21 @@ func (w *vWorld) runCaseA(c vCase06, ci, bits int, devs map[string]*vDev, r *mra
 		}
 		ev.K = (dev.rsa.N.BitLen() + 7) / 8
 		tbs = w.pickTBS(c.Em, r)
-		em := buildEM(c.Em, ev.K, tbs, r)
-		s := rsaRoot(dev.rsa, em)
-		if s == nil {
+		leadMax := int(dev.rsa.N.Bytes()[0])
+		if leadMax > 0x80 {
+			leadMax = 0x80
+		}
+		var s *big.Int
+		if !(c.Em.Lead == "xx" && leadMax <= 3) {
+			s = rsaRoot(dev.rsa, buildEMLead(c.Em, ev.K, tbs, r, leadMax))
+		}
+		if s == nil { // the message is not below this modulus: no signature value can produce it
 			st.mu.Lock()
-			st.Unreal++
+			if dev.rsa.N.BitLen()%8 != 0 {
+				st.UnrealOdd++ // a modulus with a partly used top octet leaves little room in the lead octet
+			} else {
+				st.Unreal++
+			}
 			st.mu.Unlock()
 			return
 		}
@@ -924,6 +959,9 @@ func (w *vWorld) runCaseA(c vCase06, ci, bits int, devs map[string]*vDev, r *mra
 		st.note(&e2)
 		st.mu.Lock()
 		st.Calls++
+		if c.Kc == "odd" && e2.Res.Acc {
+			st.OddAcc++
+		}
 		if h == "used" && (c.Rel == "twin_self" || c.Rel == "twin_otherca") {
 			st.TwinCalls++
 		}
